@@ -177,8 +177,6 @@ def attribute(call: dict, mism: list[str]) -> str | None:
         return "F42"   # a model that references itself through an array cannot be decoded, nor can any model containing it
     if not call["primary"] and f.get("secondary_other_media"):
         return "F59"   # a secondary 2xx arm is generated from ONE media type (application/json, else the first) and never dispatches
-    if call.get("media_type") == "application/x-ndjson" and "streamed items []" in text:
-        return "F43"
     if f["has_union_inside"] or f["union"]:
         return "F24"
     return None
